@@ -63,8 +63,8 @@ func c04Expect(first string) string {
 			return "HandlerGenCSRErr"
 		case "Generate:conferr":
 			return "HandlerConfErr"
-		case "AddCertsToAgent:err":
-			return "AgentOpCertErr"
+		case "AddCertsToAgent:err", "AddCertsToAgent:typederr", "AddCertsToAgent:typedauth":
+			return "AgentOpCertErr" // the stage that failed names the kind, whatever type the cause has
 		}
 	case "params":
 		return "Panic"
@@ -249,7 +249,7 @@ func faultClass(first string) string {
 
 func checkC04(c *ev.Ctx) {
 	defer cleanupScratch()
-	c.Rule("deviation-bounded fault enumeration over the real gensign.Run: default = everything succeeds; deviations = {failure, close, empty, unknown type, truncated, oversized} at every forwarded-agent request index (challenge, private-key add, list, removes, certificate adds) for CA replies of 1..3 certificates and 0/2 certificates of an earlier run; CA error/panic at every call; stub-handler faults in Name/Authenticate/Generate/CSRs/AddCertsToAgent for 1..2 keys x 1..2 requests, and a stub crashing in Name / Authenticate in front of a handler (stub, real) that would accept; nil attributes / nil handler (panic inside the handler loop); agent replies of the wrong message type (the agent client panics inside the handler); after every faulted run of the real handler: no lock of the handler left held and a fault-free run on the SAME handler completes; sequences of three runs that share ONE agent/ssh.AgentKey object (idempotent CA) with one agent fault (thorough: two) at every request index of the first or second run. quick: every single deviation; thorough: every pair. Oracle: error-kind table from the statement keyed by the first fault that fired. non-trivial = run in which a fault fired; distinct by deviation vector")
+	c.Rule("deviation-bounded fault enumeration over the real gensign.Run: default = everything succeeds; deviations = {failure, close, empty, unknown type, truncated, oversized} at every forwarded-agent request index (challenge, private-key add, list, removes, certificate adds) for CA replies of 1..3 certificates and 0/2 certificates of an earlier run; CA error / panic / error that is itself a typed gensign error of another stage at every call (likewise for the stub's AddCertsToAgent); stub-handler faults in Name/Authenticate/Generate/CSRs/AddCertsToAgent for 1..2 keys x 1..2 requests, and a stub crashing in Name / Authenticate in front of a handler (stub, real) that would accept; nil attributes / nil handler (panic inside the handler loop); agent replies of the wrong message type (the agent client panics inside the handler); after every faulted run of the real handler: no lock of the handler left held and a fault-free run on the SAME handler completes; sequences of three runs that share ONE agent/ssh.AgentKey object (idempotent CA) with one agent fault (thorough: two) at every request index of the first or second run. quick: every single deviation; thorough: every pair. Oracle: error-kind table from the statement keyed by the first fault that fired. non-trivial = run in which a fault fired; distinct by deviation vector")
 	c.Assume("well-formed agent replies of the wrong message type are excluded (x/crypto's client panics on them by design; gensign.Run's recover turns that into a Panic error, which is checked separately below)")
 	if c.ReplayCase != nil {
 		var rk c04ReuseCase
@@ -309,11 +309,11 @@ func checkC04(c *ev.Ctx) {
 			for _, nc := range []int{1, 2} {
 				cases = append(cases, c04Case{Handler: "stub", NCerts: nc, NKeys: nk, NCSRs: ncsr})
 				for _, sf := range [][2]string{{"Name", "panic"}, {"Authenticate", "panic"}, {"Generate", "err"}, {"Generate", "conferr"}, {"Generate", "empty"}, {"Generate", "panic"},
-					{"CSRs", "panic"}, {"AddCertsToAgent", "err"}, {"AddCertsToAgent", "panic"}} {
+					{"CSRs", "panic"}, {"AddCertsToAgent", "err"}, {"AddCertsToAgent", "panic"}, {"AddCertsToAgent", "typederr"}, {"AddCertsToAgent", "typedauth"}} {
 					cases = append(cases, c04Case{Handler: "stub", NCerts: nc, NKeys: nk, NCSRs: ncsr, StubFault: map[string]string{sf[0]: sf[1]}})
 				}
 				for j := 0; j < nk*ncsr; j++ {
-					for _, kd := range []string{"err", "panic"} {
+					for _, kd := range []string{"err", "panic", "typederr", "typedconferr"} {
 						cases = append(cases, c04Case{Handler: "stub", NCerts: nc, NKeys: nk, NCSRs: ncsr, CAFault: map[string]string{fmt.Sprint(j): kd}})
 						if c.Thorough() {
 							cases = append(cases, c04Case{Handler: "stub", NCerts: nc, NKeys: nk, NCSRs: ncsr, CAFault: map[string]string{fmt.Sprint(j): kd}, StubFault: map[string]string{"AddCertsToAgent": "err"}})
